@@ -52,6 +52,7 @@ open_("C09", "D14", "C09/empty-file-fails", [],
       "input: `git-ai blame empty.txt` (any output format) for an empty tracked file => exit 1 'Invalid line range: 1:0. File has 0 lines'; `git blame` exits 0 with no output (the pinned suite asserts the error, test_blame_edge_empty_file, so the repair is not an unedited-suite-compatible fix)",
       "c09.blame_of_empty_tracked_file", ["blame_empty_file"], affects=[])
 fixed("C09", "D7", "^fix: blame looks AI lines up under the path", "after `git mv f.txt g.txt` without any edit every AI line of the file was reported human by `git-ai blame g.txt` (the note lookup used the current path instead of the path in the originating commit)", "c09.rename_without_edit_keeps_ai_lines")
+fixed("C08", "D6", "^fix: commit --amend applies the prompt storage mode", "with prompt_storage default/local (or a per-repository exclusion) `git commit --amend` after an AI edit wrote the full inline transcript into refs/notes/ai, and with `notes` it wrote planted secrets unmasked (rewrite_authorship_after_commit_amend bypassed the storage-mode filter of post_commit)", "c08.amend_in_default_storage_mode")
 # ---------------------------------------------------------------- C02
 open_("C02", "D20", "C03/unsound-note@f.txt:12", [],
       "history: feature branch = [person replaces 2 lines of f.txt by 1; AI session S1 modifies line 5 of f.txt]; upstream inserts 2 AI lines after line 1 and then 5 human lines after line 5 of f.txt; `git rebase main` (no conflict) => the rewritten AI commit's note lists line 12 (text written by a person) as S1: the full rebase replay mis-places attributions when upstream changed the same file",
